@@ -1884,7 +1884,9 @@ fn verify_nsec(
     // for a wildcard record there.
     for seed_name in [covering_nsec_name, covering_nsec_data.next_domain_name()] {
         let mut candidate_name = seed_name.clone();
-        while candidate_name.num_labels() > next_closest_encloser.num_labels() {
+        // Compare the actual number of labels: `Name::num_labels()` doesn't count a leading `*`
+        // label, but a wildcard name can be an encloser like any other name. (RFC 4592 2.2.1)
+        while candidate_name.iter().len() > next_closest_encloser.iter().len() {
             if candidate_name.zone_of(&query.name) {
                 next_closest_encloser = candidate_name;
                 break;
@@ -2976,6 +2978,32 @@ mod test {
                 ),],
             ),
             Proof::Bogus
+        );
+
+        Ok(())
+    }
+
+    // A wildcard name is the closest encloser of the names below it
+    #[test]
+    fn nsec_name_error_below_wildcard_name() -> Result<(), ProtoError> {
+        subscribe();
+
+        assert_eq!(
+            verify_nsec(
+                &Query::new(Name::from_ascii("a.*.example.")?, A),
+                Some(&Name::from_ascii("example.")?),
+                ResponseCode::NXDomain,
+                &[],
+                &[
+                    // This NSEC encloses the query name and the wildcard at its closest encloser,
+                    // *.*.example.
+                    (
+                        &Name::from_ascii("*.example.")?,
+                        &rdataNSEC::new(Name::from_ascii("example.")?, [A, NSEC, RRSIG],),
+                    ),
+                ],
+            ),
+            Proof::Secure
         );
 
         Ok(())
